@@ -17,7 +17,6 @@ Require Import Blots.Num Blots.gen.Builtins Blots.Ast Blots.Value Blots.Outcome 
                Blots.Program Blots.EvalInst Blots.EvalFull Blots.EvalAll Blots.AllRun Blots.TextRun.
 Require Import Blots.proofs.NoPanic Blots.proofs.AllNoUnmEval Blots.proofs.AllNoUnm.
 Require Import Blots.proofs.TextRunFacts Blots.proofs.PrattFuelAll.
-Set Default Timeout 60.
 Import ListNotations.
 
 (* ------------------------------------------------------------------ no statement is TGlueFuel *)
